@@ -138,6 +138,22 @@ def _run_chunk(chunk):
 # --------------------------------------------------------------------------------------
 
 
+class _NoDaemonProcess(mp.get_context("fork").Process):
+    """Pool workers that may start their own child processes (the library's pebble pools)."""
+
+    @property
+    def daemon(self):
+        return False
+
+    @daemon.setter
+    def daemon(self, _value):
+        pass
+
+
+class _NoDaemonContext(type(mp.get_context("fork"))):
+    Process = _NoDaemonProcess
+
+
 class Context:
     def __init__(self, module, tier: str, seed: int):
         self.module = module
@@ -189,7 +205,7 @@ class Context:
             pass
 
     # -- evaluation ------------------------------------------------------------------
-    def evaluate(self, cases, check=None, *, chunk=None, timeout=60, procs=None, keep=False, record=True):
+    def evaluate(self, cases, check=None, *, chunk=None, timeout=60, procs=None, keep=False, record=True, nestable=False):
         """Evaluate every case (a list of JSON-able dicts) with the real code, in parallel.
 
         Returns the list of outcomes aligned with `cases` when keep=True.
@@ -220,7 +236,7 @@ class Context:
                 for idx, res in _run_chunk(ch):
                     results[idx] = res
         else:
-            ctx = mp.get_context("fork")
+            ctx = _NoDaemonContext() if nestable else mp.get_context("fork")
             with ctx.Pool(procs, initializer=_worker_init) as pool:
                 for part in pool.imap_unordered(_run_chunk, chunks):
                     for idx, res in part:
